@@ -30,11 +30,14 @@ class NullCtx:
         return lambda *a, **kw: True
 
 
-def gen_hypergraph(rng):
+def gen_hypergraph(rng, allow_tuple=False):
     import hypergraphx as hgx
 
     uni = rng.choice(list(history.UNIVERSES))
     labels = list(history.UNIVERSES[uni])
+    if allow_tuple and rng.random() < 0.08:
+        uni = "tuple"
+        labels = list(history.EXTRA_UNIVERSES[uni])
     rng.shuffle(labels)
     labels = labels[: rng.randint(1, 8)]
     h = hgx.Hypergraph(weighted=rng.random() < 0.3)
@@ -113,7 +116,7 @@ def run_case(ctx, rng, idx):
         uni = cfg.uni_name
     else:
         kind = "H"
-        h, uni = gen_hypergraph(rng)
+        h, uni = gen_hypergraph(rng, allow_tuple=True)
     evaluate(ctx, rng, idx, h, kind, "")
     # second evaluation on the SAME object after an in-place edit that keeps the node and hyperedge counts
     if kind == "H":
